@@ -198,7 +198,7 @@ func (e *Env) runC10Cases(op *Op) *Violation {
 			}
 			nth := r.Intn(len(openIdx))
 			cases = append(cases, c10case{Kind: "read_fault", Nth: nth, Repeat: r.Range(1, 6),
-				FKind: PickOf(r, []string{"short_read", "mid_error", "fail_before"}), Off: int64(r.Intn(int(sizes[fi]) + 50))})
+				FKind: PickOf(r, []string{"short_read", "mid_error", "fail_before", "close_error"}), Off: int64(r.Intn(int(sizes[fi]) + 50))})
 		default:
 			cases = append(cases, c10case{Kind: "existing_output"})
 		}
